@@ -491,3 +491,31 @@ def const_walk(fn, start_bb, env, on_term, place_value=None, const_param=None, d
             if not fn.is_cleanup(s):
                 st.append((s, et))
     return n
+
+
+def helper_reaches(cr, g, pred, depth=2, _seen=None):
+    """does function g of crate cr call, directly or through at most `depth` levels of same-crate helpers (closures it creates
+    included), a callee whose path satisfies pred?"""
+    _seen = _seen if _seen is not None else set()
+    if g is None or g.path in _seen:
+        return False
+    _seen.add(g.path)
+    nxt = []
+    for b, t in g.calls():
+        c = callee(t)
+        if not c:
+            continue
+        if pred(c["fn"]) or pred(c.get("res") or ""):
+            return True
+        h = cr.fns.get(c.get("res") or c["fn"]) or cr.fns.get(c["fn"])
+        if h is not None:
+            nxt.append(h)
+    for blk in g.blocks:
+        for st in blk[0]:
+            if st[0] == "=" and st[2][0] == "agg" and st[2][1][0] == "closure":
+                h = cr.fns.get(st[2][1][1])
+                if h is not None and helper_reaches(cr, h, pred, depth, _seen):
+                    return True
+    if depth <= 0:
+        return False
+    return any(helper_reaches(cr, h, pred, depth - 1, _seen) for h in nxt)
